@@ -4,7 +4,7 @@ import os
 
 from lib import gN, gZ, gbool, gopt, glist
 
-HEADER = "From CJ Require Import Common.Base C18.Model C18.Run.\n"
+HEADER = "From CJ Require Import Common.Base C18.Model C18.Run C18.ModelToml.\n"
 ERRS = [0, 2, 3, 4]            # error classes the scripted probe returns (1 = ErrCachedPhantom is the cache's)
 DEFAULT_LRU = 100000
 UNIT = 1000                    # model time units per hour in shift mode
@@ -24,6 +24,81 @@ def adv(d):
 
 
 CLR = {"k": "c"}
+
+
+# ---- configuration written as station TOML (the production path: lib.Config > *RegConfig > *liveness.Config) ----
+# The table of key names is the SPECIFICATION (cmd/application/app_config.toml documents them): which written key
+# speaks about which cache. It is deliberately not read from the struct tags.
+TOML_KEYS = {"dl": "cache_expiration_time",      # lifetime of LIVE verdicts
+             "cl": "cache_capacity",             # capacity of the LIVE cache
+             "dn": "cache_expiration_nonlive",   # lifetime of NOT-LIVE verdicts
+             "cn": "cache_capacity_nonlive"}     # capacity of the NOT-LIVE cache
+TOML_NOISE = ['log_level = "error"', 'enable_v4 = true']
+
+
+class TCfg(tuple):
+    """(tl, cl, tn, cn) as WRITTEN under the documented keys, plus the TOML text and the written items in file order"""
+    toml = None
+    items = None
+    lines = None
+
+
+def toml_cfg(rng, tl, cl, tn, cn):
+    """choose what is written: a None lifetime is an absent key or "", a 0 capacity is sometimes absent; random order"""
+    items = []
+    for k, v in (("dl", tl), ("cl", cl), ("dn", tn), ("cn", cn)):
+        if k in ("dl", "dn"):
+            if v is None and rng.random() < 0.5:
+                continue
+            items.append((k, v))
+        else:
+            if v == 0 and rng.random() < 0.5:
+                continue
+            items.append((k, v))
+    rng.shuffle(items)
+    lines = list(items)
+    for n in TOML_NOISE:
+        lines.insert(rng.randrange(len(lines) + 1), n)
+    c = TCfg((tl, cl, tn, cn))
+    c.items = items
+    c.lines = lines
+    return c
+
+
+def toml_text(c, mode):
+    out = ["# station configuration (generated)"]
+    for e in c.lines:
+        if isinstance(e, str):
+            out.append(e)
+        elif e[0] in ("dl", "dn"):
+            out.append('%s = "%s"' % (TOML_KEYS[e[0]], dur_str(e[1], mode)))
+        else:
+            out.append("%s = %d" % (TOML_KEYS[e[0]], e[1]))
+    return "\n".join(out) + "\n"
+
+
+def fill_history(naddr=6):
+    """more distinct phantoms of each verdict than any small capacity, then everything asked again, across both lifetimes"""
+    h = []
+    for v in (False, True):
+        h += [q(a, v) for a in range(naddr)]
+        h += [q(a, v) for a in range(naddr)]
+    h += [adv(1), q(0, False), q(0, True), adv(1), q(5, False), q(5, True), adv(1), q(5, False), q(5, True), adv(2), q(5, True), CLR, adv(3), CLR]
+    return h
+
+
+def toml_cases(rng, quick):
+    out = []
+    # asymmetric capacities and lifetimes, so that any exchange of two keys shows
+    fixed = [(5, 0, 2, 2), (5, 2, 2, 0), (5, 1, 2, 3), (5, 3, 2, 1), (2, 0, 5, 0), (5, 0, 2, 0), (4, -1, 3, 2), (4, 2, 3, -1),
+             (None, 0, 3, 2), (4, 2, None, 0), (None, 3, 2, 1), (5, 1, None, 3), (None, 0, None, 0), (None, 2, None, 1)]
+    for c in fixed:
+        out.append((toml_cfg(rng, *c), fill_history(), "toml"))
+    for _ in range(12 if quick else 120):
+        tl, tn = rng.sample([2, 3, 4, 5, 6], 2)
+        cl, cn = rng.sample([0, 1, 2, 3, 4, -1], 2)
+        out.append((toml_cfg(rng, tl, cl, tn, cn), rand_history(rng, rng.choice([30, 100]), tl, tn, naddr=8), "toml"))
+    return out
 
 
 def enum_histories(length, ttl_l, ttl_n):
@@ -97,6 +172,8 @@ def gen_cases(ctx):
     for _ in range(20 if quick else 300):
         c = (rng.choice([2, 3, 6]), rng.choice([0, 1, 2, 3, 5]), rng.choice([2, 3, 6]), rng.choice([0, 1, 2, 3, 5]))
         cases.append((c, rand_history(rng, rng.choice([30, 100]), c[0], c[2], naddr=8), "rand8"))
+    # the same bound / staleness cases with the configuration written as station TOML and decoded by the station's library
+    cases += toml_cases(rng, quick)
     return cases
 
 
@@ -112,6 +189,11 @@ def oracle(ctx, c, h, res, scale, tick):
     (tl, cl, tn, cn) = c
     lm = {}                     # address -> [verdict, age]   (last measurement, from the observed trace)
     cfgd = {"cfg": list(c), "ops": h}
+    lane = ""
+    if getattr(c, "toml", None):
+        # the configuration was written as TOML: c holds the values written under the documented keys
+        cfgd["toml"] = c.toml
+        lane = "toml/"
     for i, (o, st) in enumerate(zip(h, res["steps"])):
         for a in lm:
             lm[a][1] += tick
@@ -130,8 +212,9 @@ def oracle(ctx, c, h, res, scale, tick):
                     ctx.fail("served:flipped-verdict/%s" % ("live" if st["live"] else "nonlive"),
                              "cached verdict differs from the most recent measurement of that address (step %d)" % i, dict(cfgd, step=i))
                 elif ttl is None or not (lm[a][1] < ttl * scale):
-                    ctx.fail("served:stale/%s" % ("live" if st["live"] else "nonlive"),
-                             "verdict served from cache %d units after its measurement, lifetime %s (step %d)" % (lm[a][1], ttl, i), dict(cfgd, step=i))
+                    ctx.fail("served:%sstale/%s" % (lane, "live" if st["live"] else "nonlive"),
+                             "verdict served from cache %d units after its measurement, lifetime %s%s (step %d)"
+                             % (lm[a][1], ttl, (" written under %s" % TOML_KEYS["dl" if st["live"] else "dn"]) if lane else "", i), dict(cfgd, step=i))
             else:
                 if st["calls"] != 1:
                     ctx.fail("probe:calls!=1", "one query issued %d probes" % st["calls"], dict(cfgd, step=i))
@@ -145,7 +228,12 @@ def oracle(ctx, c, h, res, scale, tick):
         for side, cp, ln, d in (("live", cl, st["ll"], tl), ("nonlive", cn, st["ln"], tn)):
             if cp != 0 and d is not None:
                 bound = cp if cp > 0 else DEFAULT_LRU
-                if ln > bound:
+                if ln > bound and lane:
+                    ctx.fail("bound:toml/%s/cap=%d" % (side, cp),
+                             "%s cache holds %d entries although the station TOML says %s = %d (step %d, after %d queries); TOML:\n%s"
+                             % (side, ln, TOML_KEYS["cl" if side == "live" else "cn"], cp, i,
+                                sum(1 for x in h[:i + 1] if x["k"] == "q"), c.toml), dict(cfgd, step=i, cache_len=ln))
+                elif ln > bound:
                     other = cn if side == "live" else cl
                     ctx.fail("bound:%s/own_cap=%s,other_cap=%s" % (side, "n" if cp > 0 else "neg", "0" if other == 0 else "n"),
                              "%s cache holds %d entries with capacity %d configured (other side's capacity %d), step %d"
@@ -175,6 +263,17 @@ def kind_code(kind, size):
     return {"nil": 0, "map": 1}.get(kind, 2 + size)
 
 
+def g_toml(c, scale):
+    """the written document as ModelToml.toml, in file order"""
+    it = []
+    for k, v in c.items:
+        if k in ("dl", "dn"):
+            it.append('("%s"%%string, TDur %s)' % (TOML_KEYS[k], gopt(None if v is None else v * scale, gZ)))
+        else:
+            it.append('("%s"%%string, TInt %s)' % (TOML_KEYS[k], gZ(v)))
+    return "(decode %s)" % glist(it)
+
+
 def g_case(c, h, res, scale, tick):
     (tl, cl, tn, cn) = c
     ops, obs = [], []
@@ -190,13 +289,19 @@ def g_case(c, h, res, scale, tick):
         obs.append("(%s, %s, %s, %s)" % (g_out(o, st), gN(probes), gN(ll), gN(ln)))
     cf = "(mkCfg %s %s %s %s)" % (gopt(None if tl is None else tl * scale, gZ), gZ(cl),
                                   gopt(None if tn is None else tn * scale, gZ), gZ(cn))
+    if getattr(c, "toml", None):
+        cf = g_toml(c, scale)        # the model decodes the written document itself (ModelToml.decode)
     return "(%s, (%s, %s), %s, %s)" % (cf, gN(kind_code(res["kl"], res["sl"])), gN(kind_code(res["kn"], res["sn"])),
                                         glist(ops), glist(obs))
 
 
 # ------------------------------------------------------------------ run
 def run_seq(ctx, cases, mode):
-    js = [{"dl": dur_str(c[0], mode), "cl": c[1], "dn": dur_str(c[2], mode), "cn": c[3], "ops": h} for (c, h, _) in cases]
+    for (c, _, _) in cases:
+        if isinstance(c, TCfg):
+            c.toml = toml_text(c, mode)
+    js = [dict({"dl": dur_str(c[0], mode), "cl": c[1], "dn": dur_str(c[2], mode), "cn": c[3], "ops": h},
+               **({"toml": c.toml} if getattr(c, "toml", None) else {})) for (c, h, _) in cases]
     tags = "verif,faketime" if mode == "fake" else "verif"
     env = {"VERIF_C18_MODE": mode}
     if mode == "fake":
@@ -379,8 +484,8 @@ def run(ctx):
     else:
         check_seq(ctx, sub, res2, "shift")
     ctx.require_kinds(["kinds/map+map", "kinds/lru+lru", "kinds/map+lru", "kinds/lru+map", "kinds/nil+nil", "kinds/nil+map",
-                       "kinds/lru+nil", "with-cache-hit", "with-shrink", "shift/rand", "shift/rand8"] +
-                      (["fake/exh", "fake/rand", "fake/rand8", "fake/corpus"] if fake_ok else ["shift/exh", "shift/corpus"]))
+                       "kinds/lru+nil", "with-cache-hit", "with-shrink", "shift/rand", "shift/rand8", "shift/toml"] +
+                      (["fake/exh", "fake/rand", "fake/rand8", "fake/corpus", "fake/toml"] if fake_ok else ["shift/exh", "shift/corpus"]))
     run_sections(ctx)
     run_conc(ctx, race=False)
     ctx.require_kinds(["conc/distinct", "conc/overlap", "sections/add", "sections/lookup", "sections/clear"])
